@@ -572,6 +572,9 @@ pub fn check(src: &str) -> Checked {
                 }
             }
             let k = (symbol.clone(), sig.args.len());
+            if type_names.contains(symbol) {
+                diags.push(diag("conflicting_decl", format!("symbol {symbol}/{} is also declared as a type", k.1)));
+            }
             if symbol.starts_with('$') {
                 diags.push(diag("duplicate_decl", format!("defined symbol {symbol} redeclared")));
             }
